@@ -74,6 +74,10 @@ struct qmutex_s {
 
 #define Q_MUTEX_NEW(m,r) do {                                           \
         qmutex_t *x = (qmutex_t *)calloc(1, sizeof(qmutex_t));          \
+        if (x == NULL) {                                                \
+            m = NULL;                                                   \
+            break;                                                      \
+        }                                                               \
         pthread_mutexattr_t _mutexattr;                                 \
         pthread_mutexattr_init(&_mutexattr);                            \
         if (r == true) {                                                \
